@@ -174,3 +174,32 @@ void acc_store(int ds, int *list, int rule)
 int good_union_reader(int ds) { return (reject && !acc[ds].set) || (!reject && !acc[ds].state); }
 int good_union_after_store(int ds, int *l) { acc[ds].set = l; return acc[ds].set[0]; }
 int bad_union_reader(int ds) { return !acc[ds].set; }		/* control: wide member read in either mode */
+
+/* ---------------------------------------------------------------- R8 */
+int cap_items, n_items, *item_a, *item_b, *item_c, *item_d, *item_mode;
+void items_setup(void)
+{
+	cap_items = 100;
+	item_a = allocate_array(cap_items, sizeof(int)); item_b = allocate_array(cap_items, sizeof(int));
+	item_c = allocate_array(cap_items, sizeof(int)); item_d = allocate_array(cap_items, sizeof(int));
+	item_mode = allocate_array(cap_items, sizeof(int));
+}
+static void init_b(int k) { item_b[k] = 0; }
+int new_item(int quick)
+{
+	int r;
+	if (++n_items >= cap_items) {
+		cap_items += 100;
+		item_a = reallocate_array(item_a, cap_items, sizeof(int)); item_b = reallocate_array(item_b, cap_items, sizeof(int));
+		item_c = reallocate_array(item_c, cap_items, sizeof(int)); item_d = reallocate_array(item_d, cap_items, sizeof(int));
+		item_mode = reallocate_array(item_mode, cap_items, sizeof(int));
+	}
+	r = n_items;
+	item_a[r] = 0;			/* conforming: through a local copy of the counter */
+	init_b(n_items);		/* conforming: through a callee that always stores */
+	if (reject) item_mode[n_items] = 1;	/* conforming: read only under reject */
+	if (quick) return r;		/* control: item_d is skipped on this path */
+	item_d[n_items] = 0;
+	return r;			/* control: item_c is never initialised */
+}
+int use_items(int i) { return item_a[i] + item_b[i] + item_c[i] + item_d[i] + (reject ? item_mode[i] : 0); }
